@@ -37,7 +37,9 @@ def arities(name):
     var = any(p.kind == p.VAR_POSITIONAL for p in ps)
     if var:
         return sorted({max(req, 1), max(req, 1) + 1, max(req, 1) + 2})
-    return [req]
+    opt = len([p for p in ps if p.default is not p.empty and p.kind in (p.POSITIONAL_ONLY, p.POSITIONAL_OR_KEYWORD)])
+    # optional positional parameters as well (at most two more)
+    return [req + i for i in range(0, min(opt, 2) + 1)]
 
 
 AR = {n: arities(n) for n in GROUP}
